@@ -1,7 +1,8 @@
 """C04 — energy ledger: no overdraft, exact charging, free failures, bounded total spend.
 
 Protocol (one op per line, all numbers non-negative decimal integers; see lean/Operon/Drv/C04.lean):
-  new budget gtp nadh maxDebt rateNum rateDen | consume id cost cur allowDebt prio | regen id n cur |
+  new budget gtp nadh maxDebt rateNum rateDen | newr ... regenNum regenDen (regeneration_rate = regenNum/regenDen) |
+  tick id (one pass of the store's background regeneration loop) | consume id cost cur allowDebt prio | regen id n cur |
   transfer src dst n cur | convert id n | dorm id | wake id | interest id | rst id |
   obs id none | obs id nth k exc | obs id state <name> exc | obs id always exc   (scripted on_state_change observer)
 Observation: `<ret> | <store>[ | <store>] | cb [id:state,...]`,
@@ -14,10 +15,12 @@ from fractions import Fraction
 
 from ..core import Infra, LEAN, REPO, Prop, Violation, import_repo, run_model, write_if_changed
 from ..extract import e5_metabolism, py2lean_metabolism
+from ..atpbg import Background
 
 CURS = ["atp", "gtp", "nadh"]
 RATES = [(1, 10), (1, 10), (1, 4), (1, 2), (1, 1), (0, 1), (2, 1), (1, 8)]
-INFLOW = ("regen", "rst")
+INFLOW = ("regen", "rst", "tick")
+REGEN_RATES = [(1, 1), (2, 1), (5, 1), (5, 2), (1, 2), (7, 1), (3, 4)]
 STATES = ["normal", "conserving", "starving", "feasting", "dormant"]
 EXC = [RuntimeError, ValueError, KeyError]
 
@@ -62,10 +65,11 @@ class C04(Prop):
         + ["consume:topup:atp", "consume:topup-short>debt:atp", "consume:topup-short>refused:atp",
            "regen:pay", "regen:nopay", "regen:clamp", "regen:fit", "transfer:ok", "transfer:short", "transfer:self",
            "convert:pos", "convert:zero", "convert:neg", "dorm", "wake", "interest:pos", "interest:zero", "rst",
-           "cb:called", "cb:raised"])
+           "cb:called", "cb:raised", "tick:pass", "tick:noloop"])
     assumptions = [
         "amounts, costs, priorities and configuration values are non-negative Python ints (the property's quantifier)",
-        "silent=True, regeneration_rate=0 (no background thread: it would be another actor calling regenerate, see C05)",
+        "silent=True; the background thread of a store with regeneration_rate > 0 is captured, not started: single passes of "
+        "its loop body are run as `tick` operations of the history (harness/vf/atpbg.py), real-time sleeping is not exhibited",
         "on_state_change observers return or raise and do not call back into the store (scripted: raise at the k-th "
         "call / on a given state / always; three exception classes, empty messages)",
         "debt_interest is 0.1 or a dyadic rational: on these int(debt*rate) equals floor(debt*num/den) "
@@ -84,6 +88,9 @@ class C04(Prop):
         from operon_ai.state import metabolism as m
         self.m = m
         self.cur = {"atp": m.EnergyType.ATP, "gtp": m.EnergyType.GTP, "nadh": m.EnergyType.NADH}
+        # the module sees a `threading` whose Thread is captured and a `time` whose sleep costs nothing (locks stay real)
+        self.bg = Background(m)
+        m.threading = self.bg.fake_threading()
         self.float_checked = False
         self.float_ok = True
         self.float_truncated = 0
@@ -180,19 +187,27 @@ class C04(Prop):
             b = rng.choice([10 ** 6, 10 ** 9, 3 * 10 ** 8 + 7])
             return f"new {b} {rng.choice([0, b // 3])} {rng.choice([0, b // 7])} {rng.choice([0, b // 2, b])} 1 10"
         rn, rd = rng.choice(self.rates)
-        return (f"new {rng.choice([0, 0, 1, 2, 5, 10, 10, 20, 50, 100])} {rng.choice([0, 0, 0, 3, 10])} "
+        line = (f"new {rng.choice([0, 0, 1, 2, 5, 10, 10, 20, 50, 100])} {rng.choice([0, 0, 0, 3, 10])} "
                 f"{rng.choice([0, 0, 2, 3, 8, 30])} {rng.choice([0, 0, 5, 20, 100])} {rn} {rd}")
+        if rng.random() < 0.25:      # passive regeneration configured (regeneration_rate > 0; rarely an explicit 0)
+            gn, gd = rng.choice(REGEN_RATES + [(0, 1)])
+            line = "newr" + line[3:] + f" {gn} {gd}"
+        return line
 
     def _mk(self, line):
         t = line.split()
-        return self.m.ATP_Store(budget=int(t[1]), gtp_budget=int(t[2]), nadh_reserve=int(t[3]), max_debt=int(t[4]),
-                                debt_interest=int(t[5]) / int(t[6]), silent=True)
+        kw = {"regeneration_rate": int(t[7]) / int(t[8])} if t[0] == "newr" else {}
+        k0 = self.bg.mark()
+        s = self.m.ATP_Store(budget=int(t[1]), gtp_budget=int(t[2]), nadh_reserve=int(t[3]), max_debt=int(t[4]),
+                             debt_interest=int(t[5]) / int(t[6]), silent=True, **kw)
+        self.bg.capture(s, k0)
+        return s
 
     def _apply(self, stores, line):
         """apply a protocol line to real stores; returns (ret, touched ids) — exceptions propagate"""
         t = line.split()
         op = t[0]
-        if op == "new":
+        if op in ("new", "newr"):
             stores.append(self._mk(line))
             return len(stores) - 1, []
         if op == "obs":
@@ -215,6 +230,8 @@ class C04(Prop):
             return s.apply_debt_interest(), [i]
         if op == "rst":
             return s.reset(), [i]
+        if op == "tick":
+            return self.bg.tick(s), [i]
         raise KeyError(op)
 
     def _amount(self, rng, s, cur):
@@ -253,6 +270,8 @@ class C04(Prop):
             mix = ["consume"] * 6 + ["transfer"] * 2 + ["convert", "dorm", "wake", "interest", "interest"]
             if not no_inflow:
                 mix += ["regen"] * 3 + ["rst"]
+                if any(l.startswith("newr") for l in lines):
+                    mix += ["tick"] * 2
             length = rng.choice([1, 2, 3, 5, 8, 12, 20, 30, 40])
             k = 0
             while k < length:
@@ -283,6 +302,9 @@ class C04(Prop):
                     line = f"transfer {i} {j} {rng.choice([0, 1, 2, 5, b, b + 1, max(b - 1, 0), 50])} {cur}"
                 elif op == "convert":
                     line = f"convert {i} {rng.choice([0, 1, 2, 5, 100, self._pub(s, "nadh"), self._pub(s, "nadh") + 1])}"
+                elif op == "tick":
+                    with_loop = [k_ for k_, s_ in enumerate(stores) if self.bg.has_loop(s_)]
+                    line = f"tick {rng.choice(with_loop) if with_loop and rng.random() < 0.9 else i}"
                 elif op == "new" or (op == "dorm" and rng.random() < 0.03 and len(stores) < 4):
                     line = self._new_line(rng)
                 elif with_obs and op == "wake" and rng.random() < 0.3:
@@ -299,7 +321,7 @@ class C04(Prop):
                 bad = rng.choice(["bogus 0", "consume 0 x atp 1 0", "consume 0 -5 atp 1 0", "consume 9 1 atp 0 0",
                                   "regen 0 1 xyz", "transfer 0 7 1 atp", "consume 0 1 atp", "rst", "new 1 2 3",
                                   "convert 0 1.5", "interest 12", "obs 0 nth x 0", "obs 5 always 0", "obs 0 state purple 0",
-                                  "obs 0"])
+                                  "obs 0", "tick", "tick 7", "tick x", "newr 1 2 3 4 1 10 1 0", "newr 1 2 3 4 1 10 1"])
                 lines.insert(rng.randrange(2, len(lines) + 1), bad)
             yield {"lines": lines, "note": "random" + (" no-inflow" if no_inflow else "") + (" big" if big else "")
                    + (" observers" if with_obs else "")}
@@ -336,8 +358,19 @@ class C04(Prop):
                 for k in range(1, depth):
                     for ops in itertools.product(sub, repeat=k):
                         obs_cases.append({"lines": list(cfg) + [sc] + list(ops), "note": f"observer {sc}, depth {k}"})
+        # passive regeneration configured: ticks of the background loop, zero amounts, transfers into the regenerating store
+        rcfgs = [("newr 5 0 3 10 1 2 5 1", "new 6 0 0 0 1 10"), ("newr 4 2 0 0 1 10 5 2", "newr 0 0 0 5 1 2 1 2")]
+        ralpha = ["tick 0", "tick 1", "regen 0 0 atp", "regen 0 2 atp", "transfer 1 0 0 atp", "transfer 1 0 2 atp",
+                  "transfer 0 1 0 gtp", "consume 0 7 atp 1 5", "consume 0 3 atp 0 0", "convert 0 0", "interest 0", "rst 0"]
+        rcases = []
+        for cfg in rcfgs:
+            for k in range(1, depth + 1):
+                for ops in itertools.product(ralpha, repeat=k):
+                    rcases.append({"lines": list(cfg) + list(ops), "note": f"exhaustive (regeneration_rate > 0) depth {k}"})
         return [{"name": f"all histories of <= {depth} ops over a 13-op alphabet on 3 two-store configurations",
                  "cases": cases},
+                {"name": f"all histories of <= {depth} ops over a 12-op alphabet (ticks, zero amounts) on 2 configurations with "
+                         "regeneration_rate > 0", "cases": rcases},
                 {"name": f"9 observer scripts x all histories of <= {depth - 1} ops over a 10-op alphabet on 3 configurations",
                  "cases": obs_cases},
                 {"name": "two long fixed histories (transaction-log cap, paying loop)", "cases": long_cases}]
@@ -363,13 +396,16 @@ class C04(Prop):
             return str(r)
         return f"?{type(r).__name__}:{r!r}"
 
-    ARITY = {"consume": 6, "regen": 4, "transfer": 5, "convert": 3, "dorm": 2, "wake": 2, "interest": 2, "rst": 2}
+    ARITY = {"consume": 6, "regen": 4, "transfer": 5, "convert": 3, "dorm": 2, "wake": 2, "interest": 2, "rst": 2,
+             "tick": 2}
 
     def _wellformed(self, t):
         if not t:
             return False
         if t[0] == "new":
             return len(t) == 7 and all(_isnat(x) for x in t[1:])
+        if t[0] == "newr":
+            return len(t) == 9 and all(_isnat(x) for x in t[1:])
         if t[0] == "obs":
             if len(t) < 3 or not _isnat(t[1]):
                 return False
@@ -401,8 +437,8 @@ class C04(Prop):
             if not self._wellformed(t):
                 obs.append("bad-op")
                 continue
-            if t[0] == "new":
-                if int(t[6]) == 0:
+            if t[0] in ("new", "newr"):
+                if int(t[6]) == 0 or (t[0] == "newr" and int(t[8]) == 0):
                     obs.append("bad-op")
                     continue
                 stores.append(self._mk(line))
@@ -459,9 +495,11 @@ class C04(Prop):
                 continue
             if t[0] == "obs":
                 continue
-            if t[0] == "new":
+            if t[0] in ("new", "newr"):
                 a, g, n, md = int(t[1]), int(t[2]), int(t[3]), int(t[4])
-                cfg.append({"cap": [a, g, n], "max_debt": md, "accrued": 0})
+                # regeneration_rate: "ATP regenerated per second (0 = disabled)" - what one pass of the background loop may add
+                cfg.append({"cap": [a, g, n], "max_debt": md, "accrued": 0,
+                            "rate": Fraction(int(t[7]), int(t[8])) if t[0] == "newr" else Fraction(0)})
                 prev.append((a, g, n, 0, 0))
                 init_total += a + g + n + md
                 continue
@@ -519,8 +557,9 @@ class C04(Prop):
                     # interrupted by the observer: nothing may be created and no more than the cost removed
                     out.append(Violation("interrupted_spend_removes_at_most_cost", f"0 <= net worth removed <= {cost}",
                                          f"{d}: {b0} -> {n0}", idx))
-            elif t[0] in ("regen", "transfer"):
-                # regeneration (also the deposit half of a transfer) never lifts a balance above its capacity
+            elif t[0] in ("regen", "transfer", "tick"):
+                # regeneration (also the deposit half of a transfer, and a pass of the background loop) never lifts a
+                # balance above its capacity
                 for i, p in now.items():
                     for c in range(3):
                         if p[c] > max(cfg[i]["cap"][c], before[i][c]):
@@ -535,8 +574,9 @@ class C04(Prop):
                     if ret == "0" and any(now[i][:4] != before[i][:4] for i in ids):
                         out.append(Violation("failed_transfer_is_free", "no change", f"{before} -> {now}", idx))
                 else:
-                    if worth(n0) - worth(b0) > int(t[2]):
-                        out.append(Violation("regeneration_adds_at_most_amount", f"net worth +<= {t[2]}",
+                    amount = int(t[2]) if t[0] == "regen" else cfg[i0]["rate"]
+                    if worth(n0) - worth(b0) > amount:
+                        out.append(Violation("regeneration_adds_at_most_amount", f"net worth +<= {amount}",
                                              f"{b0} -> {n0}", idx))
             elif t[0] in ("convert", "dorm", "wake"):
                 if worth(n0) != worth(b0):
